@@ -177,7 +177,13 @@ def call(I, name, args, e):
         if not isinstance(s, SeqV) or not isinstance(src, SeqV) or src.stores or s.stores: return I.top('append', e)
         s.segs.extend(src.segs); src.segs = []; return UNIT
     if n in ('alloc::vec::Vec::<T, A>::len', 'core::slice::<impl [T]>::len', 'core::str::<impl str>::len', 'alloc::string::String::len'):
-        if isinstance(a0, SeqV): return seqlen(a0.segs)
+        if isinstance(a0, SeqV):
+            r_ = seqlen(a0.segs)
+            if n == 'alloc::vec::Vec::<T, A>::len' and is_term(r_) and r_[0] != 'c' and a0.elem not in ('()', None):
+                # a Vec of sized, non-zero-sized elements holds at most isize::MAX bytes (its allocation is refused beyond that)
+                o_ = I.st.ranges.get(r_, (0, sym.BIG))
+                I.st.ranges[r_] = (max(o_[0], 0), min(o_[1], (1 << 63) - 1))
+            return r_
         if isinstance(a0, SliceV): return sub(a0.hi, a0.lo)
         return I.top('len of %r' % (a0,), e)
     if n in ('alloc::vec::Vec::<T, A>::is_empty',):
@@ -706,9 +712,14 @@ def call(I, name, args, e):
         return I.top('to_vec of %r' % (a0,), e)
     if re.match(r'^core::num::<impl (u8|u16|u32|u64|usize)>::(leading_zeros|ilog2)$', n):
         # bit length of the operand: leading_zeros(x) = BITS - bitlen(x);  ilog2(x) = bitlen(x) - 1
-        bl = ('call', 'bitlen', a0); sym.CALL_RANGE[bl] = (0, 64)
         bits = int_bits(re.match(r'^core::num::<impl (\w+)>', n).group(1))
+        # the operand is a value of the type: what is measured is the term reduced to the type's width
+        bl = ('call', 'bitlen', trunc(a0, bits) if is_term(a0) else a0); sym.CALL_RANGE[bl] = (0, 64)
         return sub(C(bits), bl) if n.endswith('leading_zeros') else sub(bl, ONE)
+    if re.match(r'^core::num::<impl (u8|u16|u32|u64|usize)>::next_power_of_two$', n) and is_term(a0):
+        # smallest power of two >= x (an overflow panics in debug builds and is a refusal the callers' ranges exclude here)
+        if a0[0] == 'c': return C(sym._npow2(a0[1]))
+        return ('call', 'npow2', a0)
     if n in ('core::cmp::Ord::max', 'core::cmp::Ord::min', 'core::cmp::max', 'core::cmp::min') or re.match(r'^core::cmp::impls::<impl core::cmp::Ord for \w+>::(max|min)$', n):
         a, b = a0, deref(args[1])
         if is_term(a) and is_term(b):
